@@ -50,7 +50,13 @@ def gen(rng, tier):
             # class-based namespaces that override trigger_event() (the
             # documented way to catch every event in one method) instead of
             # defining on_<event> methods
-            'override': rng.random() < 0.25}
+            'override': rng.random() < 0.25,
+            # the chosen target fails (a handler using the session of a
+            # client whose transport has just gone gets a KeyError, ...):
+            # the failure is not "no target here", nothing else runs
+            'raises': rng.choice([None, 'KeyError', 'KeyError',
+                                  'AttributeError', 'TypeError',
+                                  'LookupError', 'ValueError'])}
 
 
 def config_of(seed):
@@ -163,8 +169,21 @@ def _check(v, w, n0, what, tgt, ns, ev, who, core_args):
               % (what, trepr(want), trepr(e['args'])), what.split()[0])
 
 
+RAISE = 'RAISE!'
+
+
+def _raise_plan(case, args):
+    if case.get('raises') and args and args[-1] == RAISE:
+        import builtins
+        return [('raise', getattr(builtins, case['raises'])(
+            'injected handler failure'))]
+    return None
+
+
 def _result(v, w, bits, other, variant):
     for e in w.rec.errors:
+        if 'injected handler failure' in (e.get('exc') or ''):
+            continue
         v.add('error_logged', '%s %s in %s' % (e['msg'], e.get('exc'),
                                                e.get('site')),
               '%s@%s' % ((e.get('exc') or e['msg']).split(':')[0][:40],
@@ -186,7 +205,7 @@ def _run_server(case, bits, other, mode, coroutine, w):
     def plan(label, args, evt):
         if label[3] == 'connect' or (label[3] == '*' and False):
             return [('ret', None)]
-        return [('ret', 'R')]
+        return _raise_plan(case, args) or [('ret', 'R')]
     _register(w, srv, 's', bits, other, ns, [ev, 'connect', 'disconnect'],
               plan, coroutine, client=False)
     peer = w.add_peer('s')
@@ -221,6 +240,13 @@ def _run_server(case, bits, other, mode, coroutine, w):
     if want_ack != (len(acks) == 1):
         v.add('ack_presence', 'id %r target %s: acks %s'
               % (case['id'], tgt, acks))
+    if case.get('raises'):
+        n0 = len(w.rec.events)
+        peer.send_pkt(sio.EVENT, ns, None, [ev] + case['args'] + [RAISE])
+        w.settle()
+        w.rec.count('fault.handler_raise')
+        _check(v, w, n0, 'raising-target', tgt, ns, ev, 's',
+               [sid] + wire_norm(case['args']) + [RAISE])
     # an event nobody registered anywhere: dropped unless a catch-all exists
     n0 = len(w.rec.events)
     peer.send_pkt(sio.EVENT, ns, None, ['nobody-handles-this', 1])
@@ -409,7 +435,7 @@ def _run_client(case, bits, other, mode, coroutine, w):
     c = w.add_client('c', reconnection=False)
 
     def plan(label, args, evt):
-        return [('ret', 'R')]
+        return _raise_plan(case, args) or [('ret', 'R')]
     _register(w, c, 'c', bits, other, ns,
               [ev, 'connect', 'disconnect', 'connect_error'], plan,
               coroutine, client=True)
@@ -454,6 +480,13 @@ def _run_client(case, bits, other, mode, coroutine, w):
         if acks[0].data != want or acks[0].nsp != ns or \
                 acks[0].id != case['id']:
             v.add('ack_content', '%s, wanted %s' % (acks[0], want))
+    if case.get('raises'):
+        n0 = len(w.rec.events)
+        ss.send_pkt(sio.EVENT, ns, None, [ev] + case['args'] + [RAISE])
+        w.settle()
+        w.rec.count('fault.handler_raise')
+        _check(v, w, n0, 'raising-target', tgt, ns, ev, 'c',
+               wire_norm(case['args']) + [RAISE])
     # an event literally named '*' (see the server side)
     n0 = len(w.rec.events)
     ss.send_pkt(sio.EVENT, ns, None, ['*', 7])
